@@ -22,7 +22,7 @@ ASSUMPTIONS = [
     "a column involves a variable iff its label (level names removed) mentions the variable",
 ]
 
-UNSEEN = {"f": "zz", "g": "zz", "h": "zz", "u": "zz", "k": 99, "v": 77}
+UNSEEN = {"f": "zz", "g": "zz", "h": "zz", "u": "zz", "k": 99, "v": 77, "c1": "other"}
 
 
 @st.composite
@@ -31,6 +31,12 @@ def case_strategy(draw):
     d = draw(rich.design(num_pool=("x", "z", "scale(x)", "center(z)", "np.log(p)", "poly(x, 2)", "I(x + z)"), max_groups=2))
     used = sorted(rich.used_columns(d) & set(UNSEEN))
     n = frames.nrows(spec)
+    # a factor with one single level in training: next to an intercept its term has no column at all, but a new level
+    # of it is still a level that was absent in training
+    spec["cols"].append({"name": "c1", "kind": "str", "values": ["only"] * n})
+    if draw(st.integers(0, 4)) == 0 and not d["formula"].rstrip().endswith("- 1"):
+        d = dict(d, formula=d["formula"] + " + c1", single_level_term=True)
+        used = used + ["c1"]
     rows = draw(st.lists(st.integers(0, n - 1), min_size=2, max_size=7))
     inject = {}
     if used:
@@ -70,6 +76,8 @@ def new_frames(case):
 
 def involves(label, var):
     plain = re.sub(r"\[[^\]]*\]", "", label)
+    if var not in rich.COLS:
+        return re.search(r"\b%s\b" % re.escape(var), plain) is not None
     return var in rich.bases(plain)
 
 
@@ -118,7 +126,8 @@ def judge_design(ctx, case):
                 if m is None:
                     continue
                 labels = [l for t in m.terms.values() for l in t.labels]
-                affected = any(involves(l, v) for l in labels for v in inject)
+                # a term involves a variable whether or not it has columns (a single-level factor next to an intercept has none)
+                affected = any(involves(l, v) for l in list(labels) + list(m.terms) for v in inject)
                 with core.Guard():
                     ref = m.evaluate_new_data(base)
                 with warnings.catch_warnings(record=True) as w:
